@@ -254,6 +254,15 @@ def step (c : Ctx) (line : String) : Ctx × String :=
     match id.toNat?, parseOptNat idx with
     | some i, some k => let r := pDown c.fkb i k c.pstate; (c.setPState r.1, s!"r {showRat r.2}")
     | _, _ => bad
+  | ["fupg", id, gs] =>
+    -- upward(groundings=…): `gs` = groundings separated by ';'
+    match id.toNat?, (gs.splitOn ";").mapM parseGr with
+    | some i, some l => let r := pUpR c.fkb i (some l) c.pstate; (c.setPState r.1, s!"r {showRat r.2}")
+    | _, _ => bad
+  | ["fdowng", id, idx, gs] =>
+    match id.toNat?, parseOptNat idx, (gs.splitOn ";").mapM parseGr with
+    | some i, some k, some l => let r := pDownR c.fkb i k (some l) c.pstate; (c.setPState r.1, s!"r {showRat r.2}")
+    | _, _, _ => bad
   | ["fpass", dir, ids] =>
     match parseFCalls dir ids with
     | some calls => let r := runPCalls c.fkb calls c.pstate; (c.setPState r.1, s!"r {showRat r.2}")
